@@ -269,12 +269,34 @@ def check_single_and_atomic(eng, run):
     push = cd.methods.get("push_datagram")
     if push is None:
         raise AnalysisError("anchor vanished: _ClientData.push_datagram")
-    an = AtomicSection(eng, None, lambda n: _is_call_named(n, {"append"}) and "_datagram_queue" in ast.unparse(call_of(n).func), armed_at_entry=True)
+    from sa.analyses.buffers import through_local
+
+    def queues_it(n):
+        if not _is_call_named(n, {"append"}):
+            return False
+        recv = call_of(n).func.value
+        return "_datagram_queue" in ast.unparse(through_local(push, recv))  # the deque itself or a local alias of it
+
+    an = AtomicSection(eng, None, queues_it, armed_at_entry=True)
     Interp(an, push).run()
     ok = bool(an.ends) and all(st == "armed" for _, st in an.ends)
     if not ok:
         run.finding("C16.atomic", push, an.breaks[0] if an.breaks else push.node, "the datagram is queued after a suspension point: arrival order is no longer queue order")
     run.ob("C16.atomic", f"{push.short}:append-before-await", ok)
+    # (d) the queue length push_datagram returns (the per-datagram task decides on it whether to start a client task) is read
+    # after its last suspension point: a count taken before the notify can describe datagrams already consumed
+    def reads_queue_len(n):
+        return isinstance(n, ast.Call) and isinstance(n.func, ast.Name) and n.func.id == "len" and len(n.args) == 1 \
+            and "_datagram_queue" in ast.unparse(through_local(push, n.args[0]))
+
+    rets = [n for n in own_nodes(push.node) if isinstance(n, ast.Return) and n.value is not None and any(reads_queue_len(x) for x in ast.walk(through_local(push, n.value)))]
+    if rets:
+        an = AtomicSection(eng, reads_queue_len, lambda n: n in rets)
+        Interp(an, push).run()
+        ok = bool(an.ends) and all(st == "armed" for _, st in an.ends)
+        if not ok:
+            run.finding("C16.atomic", push, an.breaks[0] if an.breaks else rets[0], "the queue length returned by push_datagram() is read before a suspension point: by the time the per-datagram task acts on it the running handler may have consumed the queue, and a second client task is started on an empty queue")
+        run.ob("C16.atomic", f"{push.short}:returned-length-is-fresh", ok, returns=len(rets))
     an = AtomicSection(eng, None, lambda n: _is_call_named(n, {"push_datagram"}), armed_at_entry=True)
     Interp(an, handler).run()
     ok = bool(an.ends) and all(st == "armed" for _, st in an.ends)
@@ -317,7 +339,7 @@ def check_single_and_atomic(eng, run):
         run.finding("C16.restart", hook, _stmt_at(hook, tr[-1]) if tr else hook.node, "the task-done hook can return with a non-empty queue and no new task: the queued datagrams are stranded until another datagram arrives (or for ever)", tr)
     run.ob("C16.restart", f"{hook.short}:restart-if-non-empty", not bad, exits=len(out.ret))
     # the empty exit leaves the state None (mark_done precedes the emptiness test)
-    an = AtomicSection(eng, lambda n: _is_call_named(n, {"mark_done"}), lambda n: isinstance(n, TestAtom) and "queue_is_empty" in ast.unparse(n.test))
+    an = AtomicSection(eng, lambda n: _is_call_named(n, {"mark_done"}), lambda n: _is_call_named(n, {"queue_is_empty"}))
     Interp(an, hook).run()
     ok = bool(an.ends) and all(st == "armed" for _, st in an.ends)
     if not ok:
@@ -340,7 +362,8 @@ def check_fifo(eng, run):
                 # aliased: queue = self._datagram_queue ; queue.popleft()
         alias_calls = []
         for fn in ci.methods.values():
-            aliases = {t.id for x in own_nodes(fn.node) if isinstance(x, ast.Assign) and isinstance(x.value, ast.Attribute) and x.value.attr == attr for t in x.targets if isinstance(t, ast.Name)}
+            aliases = {t.id for x in own_nodes(fn.node) if isinstance(x, (ast.Assign, ast.AnnAssign)) and isinstance(getattr(x, "value", None), ast.Attribute) and x.value.attr == attr
+                       for t in (x.targets if isinstance(x, ast.Assign) else [x.target]) if isinstance(t, ast.Name)}
             for x in own_nodes(fn.node):
                 if isinstance(x, ast.Call) and isinstance(x.func, ast.Attribute) and isinstance(x.func.value, ast.Name) and x.func.value.id in aliases:
                     alias_calls.append((fn, x))
